@@ -104,11 +104,13 @@ theorem header_fields (b0 b1 : UInt8) (rest : List UInt8) :
     Trans.frameHeader_GetOpcode (b0 :: b1 :: rest) = b0 % 16 ∧
     Trans.frameHeader_GetMask (b0 :: b1 :: rest) = (b1.toNat / 128 == 1) ∧
     Trans.frameHeader_GetLengthCode (b0 :: b1 :: rest) = b1 % 128 := by
+  have h0 : goIdx (b0 :: b1 :: rest) 0 = b0 := rfl
+  have h1 : goIdx (b0 :: b1 :: rest) 1 = b1 := rfl
   refine ⟨?_, ?_, ?_, ?_⟩
-  · show ((b0 >>> (7 : UInt8)) == (1 : UInt8)) = _; revert b0; apply u8_forall; decide +kernel
-  · show ((b0 <<< (4 : UInt8)) >>> (4 : UInt8)) = _; revert b0; apply u8_forall; decide +kernel
-  · show ((b1 >>> (7 : UInt8)) == (1 : UInt8)) = _; revert b1; apply u8_forall; decide +kernel
-  · show ((b1 <<< (1 : UInt8)) >>> (1 : UInt8)) = _; revert b1; apply u8_forall; decide +kernel
+  · unfold Trans.frameHeader_GetFIN; rw [h0]; clear h0 h1; revert b0; apply u8_forall; decide +kernel
+  · unfold Trans.frameHeader_GetOpcode; rw [h0]; clear h0 h1; revert b0; apply u8_forall; decide +kernel
+  · unfold Trans.frameHeader_GetMask; rw [h1]; clear h0 h1; revert b1; apply u8_forall; decide +kernel
+  · unfold Trans.frameHeader_GetLengthCode; rw [h1]; clear h0 h1; revert b1; apply u8_forall; decide +kernel
 
 /-! ## C16: the gate is RFC 3629 validity of the whole payload, for text and close reasons only -/
 
